@@ -357,7 +357,7 @@ func cfAct(env *cfEnv, s ast.Stmt) string {
 }
 
 // threadlocal/gid.go: literal statements (and two/three statement windows) of Init, Cleanup, Set, Get.
-func cfTlActs(fd *ast.FuncDecl) []string {
+func cfTlActs(f *ast.File, fd *ast.FuncDecl) []string {
 	params := cfParams(fd)
 	key, value := "", ""
 	if len(params) >= 1 {
@@ -366,7 +366,8 @@ func cfTlActs(fd *ast.FuncDecl) []string {
 	if len(params) >= 2 {
 		value = params[1]
 	}
-	stmts := fd.Body.List
+	// read through ONE level of helper extraction (`ls, ok := localStorage()`, `lockedStore(gid, ls)`): inlineresults.go, inline.go
+	stmts := inlineResultHelpers(f, inlineHelpers(f, fd.Body.List))
 	at := func(i int) string {
 		if i < len(stmts) {
 			return src(stmts[i])
@@ -620,7 +621,7 @@ func (c *cfFile) tlField(name string) (res string) {
 	if fd == nil {
 		return "[.absent]"
 	}
-	return cfList(cfTlActs(fd))
+	return cfList(cfTlActs(c.f, fd))
 }
 
 func genCtxFacts() string {
